@@ -18,6 +18,8 @@ def main():
     a = ap.parse_args()
     seed = int(os.environ.get("VERIF_SEED", "0") or 0)
     os.environ["Y0VC_TIER"] = a.tier
+    if a.freeze_baseline:
+        os.environ["Y0VC_IGNORE_HARD"] = "1"
     from . import pipeline
     if a.replay:
         return replay(a.pid, a.replay)
